@@ -403,6 +403,24 @@ def inclusion_sites(ctx, f, name, _seen=None):
                 out.append((x, x.args[0], set(dom_guard(ctx, f, n.id)), loops))
     return out
 
+def take_over(ctx, rep, fn, clause, only=None):
+    """run the clause function `fn(ctx, report)` of another property and take its items over under `clause` (only those it filed under
+    `only`, if given).  A refusal of the borrowed clause is recorded like one of an own clause; it does not end the run."""
+    from ..core.model import AnchorError
+    sub = type(rep)(rep.prop)
+    try:
+        fn(ctx, sub)
+    except AnchorError as e:
+        if hasattr(rep, "refused"):
+            rep.refused.append((getattr(fn, "__name__", "shared"), str(e)))
+        else:
+            raise
+    for i in sub.items:
+        if only is None or i.clause == only:
+            i.clause = clause
+            rep.items.append(i)
+
+
 def out_of_order(ctx, f, is_first, is_then, within_iteration=True):
     """[(then node id, first node id)] pairs where a node satisfying is_then(node, cfg) can be followed by one satisfying
     is_first(node, cfg) on a path that does not pass the head of an outermost loop (i.e. inside one iteration / one call): the
